@@ -221,7 +221,13 @@ def solve_all(jobs, progress=None):
     return results
 
 
+QS_STATS = {}
+
+
 def quick_sat(text, timeout_ms=300):
     """In-process feasibility check used for path pruning: 'unsat' prunes."""
     st, info, secs = run_z3_api(text, timeout_ms)
+    e = QS_STATS.setdefault(st, [0, 0.0])
+    e[0] += 1
+    e[1] += secs
     return st
